@@ -283,6 +283,7 @@ func VH_Fault(a []int) {
 		if !op.failed || op.applied {
 			continue
 		}
+
 		retried := false
 		for _, later := range w.ops[i+1:] {
 			if later.verb == op.verb && later.name == op.name && !later.failed {
@@ -307,8 +308,14 @@ func VH_Fault(a []int) {
 		sym.Disc("")
 	}
 	// (2) the partial work violates none of the safety rules
-	s.monC03()
-	s.monC04()
+	if len(w.faulted) > 0 && w.faulted[0] == "pod.patch:not-found" {
+		// the pod disappeared under the reconcile (that is what NotFound on its patch means): the
+		// snapshot the safety monitors speak about is no longer the state of the world
+		sym.Cover("a pod vanished while it was being adopted or released")
+	} else {
+		s.monC03()
+		s.monC04()
+	}
 	// (3) once calls stop failing the system converges to the same final state
 	T := 3*(N+R+K) + 6
 	fixed := false
